@@ -370,47 +370,90 @@ section Source
 open FramePrims FrameSrc
 
 theorem src_byGroup_eq_model (nanv : β) (ncf nsf : Nat) (f : List α → β) (rows : List (Row α))
-    (hwf : WF ncf nsf rows) :
+    (hwf : WF ncf nsf rows) (hna : NoMissing rows) :
     create_by_group nanv rows f (sfNames nsf) (cfNames ncf) = byGroup nanv ncf nsf f rows :=
-  create_by_group_eq_model nanv ncf nsf f rows hwf
+  create_by_group_eq_model nanv ncf nsf f rows hwf hna
 
 theorem src_overall_eq_model (nanv : β) (ncf nsf : Nat) (f : List α → β) (rows : List (Row α))
-    (hwf : WF ncf nsf rows) :
+    (hwf : WF ncf nsf rows) (hna : NoMissing rows) :
     create_overall nanv rows f (sfNames nsf) (cfNames ncf) = overall nanv ncf f rows :=
-  create_overall_eq_model nanv ncf nsf f rows hwf
+  create_overall_eq_model nanv ncf nsf f rows hwf hna
+
+/-- the call site in `MetricFrame.__init__` (lifted: `DisaggregatedResult.create(data=all_data,
+    annotated_functions=annotated_funcs, sensitive_feature_names=self._sf_names, control_feature_names=self._cf_names)`
+    with the name lists of the stored feature columns) is the model's `byGroup` / `overall` -/
+theorem src_init_byGroup_eq_model (nanv : β) (ncf nsf : Nat) (f : List α → β) (rows : List (Row α))
+    (hwf : WF ncf nsf rows) (hna : NoMissing rows) :
+    init_by_group nanv rows f nsf ncf = byGroup nanv ncf nsf f rows :=
+  init_by_group_eq_model nanv ncf nsf f rows hwf hna
+
+theorem src_init_overall_eq_model (nanv : β) (ncf nsf : Nat) (f : List α → β) (rows : List (Row α))
+    (hwf : WF ncf nsf rows) (hna : NoMissing rows) :
+    init_overall nanv rows f nsf ncf = overall nanv ncf f rows :=
+  init_overall_eq_model nanv ncf nsf f rows hwf hna
+
+/-- the lifted keyword of `data.groupby(grouping_names, ...)`: pandas' default `dropna=True` (a source edit to
+    `dropna=False` changes the generated `groupby_dropna` and breaks this theorem) -/
+theorem src_groupby_dropna : groupby_dropna = true := by decide
+
+/-- what the lifted flag does: the groupby result is that of the rows WITHOUT a missing key component — a row with a
+    missing feature value is in no group of `by_group` (while `np.unique` over the whole column still lists the missing
+    level in a multi-feature index: observation of DESIGN section 5) -/
+theorem src_groupby_drops_missing (rows : List (Row α)) (names : List Col) (f : List α → β) :
+    groupbyApplyNa groupby_dropna rows names f =
+      groupbyApply (rows.filter (fun r => !keyHasNa (names.map (colVal r)))) names f := by
+  rw [src_groupby_dropna]; exact groupbyApplyNa_true rows names f
+
+/-- … and inside the quantifier (no missing feature value) the flag is irrelevant, whatever its value: every theorem of
+    this file about `create_by_group` / `create_overall` carries exactly this hypothesis -/
+theorem src_groupby_dropna_irrelevant (dropna : Bool) (ncf nsf : Nat) (rows : List (Row α)) (f : List α → β)
+    (hwf : WF ncf nsf rows) (hna : NoMissing rows) :
+    groupbyApplyNa dropna rows ((List.range ncf).map Col.cf ++ sfNames nsf) f =
+      groupbyApply rows ((List.range ncf).map Col.cf ++ sfNames nsf) f :=
+  groupbyApplyNa_noMissing dropna rows _ f
+    (fun r hr => keyHasNa_names r (hna r hr) ncf nsf (hwf r hr).1 (hwf r hr).2)
+
+/-- the lifted base frame `pd.DataFrame.from_dict({"y_true": list(y_t), "y_pred": list(y_p)})` is the model's `baseData`
+    (a renamed / exchanged key changes the generated text and breaks this theorem) … -/
+theorem src_base_data_eq_model (yt yp : List Rat) : init_base_data yt yp = FrameMulti.baseData yt yp := rfl
+
+/-- … and the columns the lifted `positional_argument_names=` reads exist in it, in the order (y_true, y_pred) -/
+theorem src_positional_in_base (yt yp : List Rat) :
+    positional_argument_names = columns (init_base_data yt yp) := by
+  simp [positional_argument_names, columns, init_base_data]
 
 /-- translated `create(...).by_group`: every entry is the metric on exactly the rows of that tuple -/
 theorem src_byGroup_cell (nanv : β) (ncf nsf : Nat) (hn : 0 < ncf + nsf) (f : List α → β)
-    (rows : List (Row α)) (hwf : WF ncf nsf rows) (k : Key) (v : β)
+    (rows : List (Row α)) (hwf : WF ncf nsf rows) (hna : NoMissing rows) (k : Key) (v : β)
     (h : (k, v) ∈ create_by_group nanv rows f (sfNames nsf) (cfNames ncf)) :
     v = if rows.filter (fun r => r.cf ++ r.sf == k) = [] then nanv
         else f ((rows.filter (fun r => r.cf ++ r.sf == k)).map (·.dat)) := by
-  rw [src_byGroup_eq_model nanv ncf nsf f rows hwf] at h
+  rw [src_byGroup_eq_model nanv ncf nsf f rows hwf hna] at h
   exact byGroup_cell nanv ncf nsf hn f rows k v h
 
 /-- translated `create(...).by_group`: the index is the Cartesian product of the observed values,
     control columns first -/
 theorem src_byGroup_index (nanv : β) (ncf nsf : Nat) (hn : 0 < ncf + nsf) (f : List α → β)
-    (rows : List (Row α)) (hwf : WF ncf nsf rows) (k : Key) :
+    (rows : List (Row α)) (hwf : WF ncf nsf rows) (hna : NoMissing rows) (k : Key) :
     k ∈ keys (create_by_group nanv rows f (sfNames nsf) (cfNames ncf)) ↔
       k.length = ncf + nsf ∧ ∀ j, j < ncf + nsf → ∃ r ∈ rows, (r.cf ++ r.sf).getD j "" = k.getD j "" := by
-  rw [src_byGroup_eq_model nanv ncf nsf f rows hwf]
+  rw [src_byGroup_eq_model nanv ncf nsf f rows hwf hna]
   exact byGroup_index nanv ncf nsf hn f rows hwf k
 
 theorem src_byGroup_index_nodup_sorted (nanv : β) (ncf nsf : Nat) (f : List α → β)
-    (rows : List (Row α)) (hwf : WF ncf nsf rows) :
+    (rows : List (Row α)) (hwf : WF ncf nsf rows) (hna : NoMissing rows) :
     (keys (create_by_group nanv rows f (sfNames nsf) (cfNames ncf))).Nodup ∧
     (keys (create_by_group nanv rows f (sfNames nsf) (cfNames ncf))).Pairwise (· < ·) := by
-  rw [src_byGroup_eq_model nanv ncf nsf f rows hwf]
+  rw [src_byGroup_eq_model nanv ncf nsf f rows hwf hna]
   exact ⟨byGroup_index_nodup nanv ncf nsf f rows, byGroup_index_sorted nanv ncf nsf f rows⟩
 
 /-- translated `create(...).by_group`: an observed-values combination without rows is NaN, not dropped -/
 theorem src_byGroup_empty (nanv : β) (ncf nsf : Nat) (hn : 0 < ncf + nsf) (f : List α → β)
-    (rows : List (Row α)) (hwf : WF ncf nsf rows) (k : Key) (hlen : k.length = ncf + nsf)
+    (rows : List (Row α)) (hwf : WF ncf nsf rows) (hna : NoMissing rows) (k : Key) (hlen : k.length = ncf + nsf)
     (hobs : ∀ j, j < ncf + nsf → ∃ r ∈ rows, (r.cf ++ r.sf).getD j "" = k.getD j "")
     (hempty : ∀ r ∈ rows, r.cf ++ r.sf ≠ k) :
     (k, nanv) ∈ create_by_group nanv rows f (sfNames nsf) (cfNames ncf) := by
-  rw [src_byGroup_eq_model nanv ncf nsf f rows hwf]
+  rw [src_byGroup_eq_model nanv ncf nsf f rows hwf hna]
   exact byGroup_empty nanv ncf nsf hn f rows hwf k hlen hobs hempty
 
 /-- translated `create(...).overall` without control features: the metric on all rows -/
@@ -419,18 +462,18 @@ theorem src_overall_eq (nanv : β) (nsf : Nat) (f : List α → β) (rows : List
 
 /-- translated `create(...).overall` with control features: per control combination -/
 theorem src_overall_control_cell (nanv : β) (ncf nsf : Nat) (hn : 0 < ncf) (f : List α → β)
-    (rows : List (Row α)) (hwf : WF ncf nsf rows) (c : Key) (v : β)
+    (rows : List (Row α)) (hwf : WF ncf nsf rows) (hna : NoMissing rows) (c : Key) (v : β)
     (h : (c, v) ∈ create_overall nanv rows f (sfNames nsf) (cfNames ncf)) :
     v = if rows.filter (fun r => r.cf == c) = [] then nanv
         else f ((rows.filter (fun r => r.cf == c)).map (·.dat)) := by
-  rw [src_overall_eq_model nanv ncf nsf f rows hwf] at h
+  rw [src_overall_eq_model nanv ncf nsf f rows hwf hna] at h
   exact overall_control_cell nanv ncf hn f rows c v h
 
 theorem src_byGroup_partition (nanv : β) (ncf nsf : Nat) (hn : 0 < ncf + nsf) (f : List α → β)
-    (rows : List (Row α)) (hwf : WF ncf nsf rows) :
+    (rows : List (Row α)) (hwf : WF ncf nsf rows) (hna : NoMissing rows) :
     ((keys (create_by_group nanv rows f (sfNames nsf) (cfNames ncf))).flatMap
       (fun k => rowsOf Row.key k rows)).Perm rows := by
-  rw [src_byGroup_eq_model nanv ncf nsf f rows hwf]
+  rw [src_byGroup_eq_model nanv ncf nsf f rows hwf hna]
   exact byGroup_partition nanv ncf nsf hn f rows hwf
 
 end Source
@@ -489,13 +532,13 @@ theorem multi_metric_own_params (yt yp : List Rat) (ms : List (MetricSpec γ))
     exactly its own sample parameters; any number of metrics, features, rows; any names (the dict keys
     are distinct, nothing else is assumed) -/
 theorem multi_column_eq_single (nanv : γ) (ncf nsf : Nat) (yt yp : List Rat) (ms : List (MetricSpec γ))
-    (rows : List (Row Nat)) (hwf : WF ncf nsf rows) (hnames : (ms.map (·.name)).Nodup)
+    (rows : List (Row Nat)) (hwf : WF ncf nsf rows) (hna : NoMissing rows) (hnames : (ms.map (·.name)).Nodup)
     (m : MetricSpec γ) (hm : m ∈ ms) :
     FrameMulti.column m.name (byGroupFrame nanv ncf nsf (baseData yt yp) ms rows) =
       (singleByGroup nanv ncf nsf (baseData yt yp) m rows).map (fun p => (p.1, some p.2)) := by
   unfold byGroupFrame singleByGroup FrameMulti.column
   dsimp only
-  rw [FrameSrc.create_by_group_eq_model _ _ _ _ _ hwf, FrameSrc.create_by_group_eq_model _ _ _ _ _ hwf]
+  rw [FrameSrc.init_by_group_eq_model _ _ _ _ _ hwf hna, FrameSrc.init_by_group_eq_model _ _ _ _ _ hwf hna]
   unfold byGroup
   refine (applyFunctions_map (fun row => List.lookup m.name row) _ _ _ _ _).trans ?_
   refine Eq.trans ?_ (applyFunctions_map some _ _ _ _ _).symm
@@ -509,13 +552,13 @@ theorem multi_column_eq_single (nanv : γ) (ncf nsf : Nat) (yt yp : List Rat) (m
 
 /-- the same for `overall` (per control stratum when control features exist) -/
 theorem multi_overall_column_eq_single (nanv : γ) (ncf nsf : Nat) (yt yp : List Rat)
-    (ms : List (MetricSpec γ)) (rows : List (Row Nat)) (hwf : WF ncf nsf rows)
+    (ms : List (MetricSpec γ)) (rows : List (Row Nat)) (hwf : WF ncf nsf rows) (hna : NoMissing rows)
     (hnames : (ms.map (·.name)).Nodup) (m : MetricSpec γ) (hm : m ∈ ms) :
     FrameMulti.column m.name (overallFrame nanv ncf nsf (baseData yt yp) ms rows) =
       (singleOverall nanv ncf nsf (baseData yt yp) m rows).map (fun p => (p.1, some p.2)) := by
   unfold overallFrame singleOverall FrameMulti.column
   dsimp only
-  rw [FrameSrc.create_overall_eq_model _ _ _ _ _ hwf, FrameSrc.create_overall_eq_model _ _ _ _ _ hwf]
+  rw [FrameSrc.init_overall_eq_model _ _ _ _ _ hwf hna, FrameSrc.init_overall_eq_model _ _ _ _ _ hwf hna]
   unfold overall
   refine (applyFunctions_map (fun row => List.lookup m.name row) _ _ _ _ _).trans ?_
   refine Eq.trans ?_ (applyFunctions_map some _ _ _ _ _).symm
@@ -530,14 +573,14 @@ theorem multi_overall_column_eq_single (nanv : γ) (ncf nsf : Nat) (yt yp : List
 /-- and the single-metric frame is the C01 model frame of "the metric with its own parameters":
     every clause of C01 applies to every column of a multi-metric frame -/
 theorem single_eq_model (nanv : γ) (ncf nsf : Nat) (yt yp : List Rat) (m : MetricSpec γ)
-    (rows : List (Row Nat)) (hwf : WF ncf nsf rows) :
+    (rows : List (Row Nat)) (hwf : WF ncf nsf rows) (hna : NoMissing rows) :
     singleByGroup nanv ncf nsf (baseData yt yp) m rows =
       byGroup nanv ncf nsf
         (fun idx => m.func [idx.map (fun j => yt.getD j 0), idx.map (fun j => yp.getD j 0)] (ownKwargs m idx))
         rows := by
   unfold singleByGroup
   dsimp only
-  rw [FrameSrc.create_by_group_eq_model _ _ _ _ _ hwf]
+  rw [FrameSrc.init_by_group_eq_model _ _ _ _ _ hwf hna]
   obtain ⟨hr1, g1, g2⟩ := construct_rel yt yp m
   congr 1
   funext idx
@@ -897,22 +940,22 @@ theorem byGroup_index_single_eq (nanv : β) (f : List α → β) (rows : List (R
 
 /-- the whole-table equation for the function text lifted from /repo (`DisaggregatedResult.create(...).by_group`) -/
 theorem src_byGroup_eq_table (nanv : β) (ncf nsf : Nat) (hn : 0 < ncf + nsf) (f : List α → β)
-    (rows : List (Row α)) (hwf : WF ncf nsf rows) :
+    (rows : List (Row α)) (hwf : WF ncf nsf rows) (hna : NoMissing rows) :
     FrameSrc.create_by_group nanv rows f (sfNames nsf) (cfNames ncf) =
       (product (levels Row.key (ncf + nsf) rows)).map (fun k =>
         (k, if rows.filter (fun r => r.cf ++ r.sf == k) = [] then nanv
             else f ((rows.filter (fun r => r.cf ++ r.sf == k)).map (·.dat)))) := by
-  rw [src_byGroup_eq_model nanv ncf nsf f rows hwf]
+  rw [src_byGroup_eq_model nanv ncf nsf f rows hwf hna]
   exact byGroup_eq_table nanv ncf nsf hn f rows hwf
 
 /-- … and for `create(...).overall` with control features -/
 theorem src_overall_eq_table (nanv : β) (ncf nsf : Nat) (hn : 0 < ncf) (f : List α → β)
-    (rows : List (Row α)) (hwf : WF ncf nsf rows) :
+    (rows : List (Row α)) (hwf : WF ncf nsf rows) (hna : NoMissing rows) :
     FrameSrc.create_overall nanv rows f (sfNames nsf) (cfNames ncf) =
       (product (levels Row.ckey ncf rows)).map (fun c =>
         (c, if rows.filter (fun r => r.cf == c) = [] then nanv
             else f ((rows.filter (fun r => r.cf == c)).map (·.dat)))) := by
-  rw [src_overall_eq_model nanv ncf nsf f rows hwf]
+  rw [src_overall_eq_model nanv ncf nsf f rows hwf hna]
   exact overall_eq_table nanv ncf nsf hn f rows hwf
 
 /-- the NaN the drivers fill in (`Cell.nan`) differs from every number a metric can return, in particular from 0:
@@ -949,6 +992,7 @@ variable {γ : Type}
     carries the tuple.  `sliceAt` has no default: nothing here is true because of a `getD _ 0`. -/
 theorem multi_byGroup_exact (nanv : γ) (ncf nsf : Nat) (hn : 0 < ncf + nsf) (yt yp : List Rat)
     (feats : List (List Level × List Level)) (hf : ∀ p ∈ feats, p.1.length = ncf ∧ p.2.length = nsf)
+    (hfna : ∀ p ∈ feats, naLevel ∉ p.1 ∧ naLevel ∉ p.2)
     (hyt : yt.length = feats.length) (hyp : yp.length = feats.length)
     (ms : List (MetricSpec γ)) (hnames : (ms.map (·.name)).Nodup) (m : MetricSpec γ) (hm : m ∈ ms)
     (hpar : ParamsFull feats.length m) :
@@ -958,8 +1002,9 @@ theorem multi_byGroup_exact (nanv : γ) (ncf nsf : Nat) (hn : 0 < ncf + nsf) (yt
                   else m.func [sliceAt yt (rowIdx feats k), sliceAt yp (rowIdx feats k)]
                          (ownKwargsAt m (rowIdx feats k))))) := by
   have hwf := mkRows_wf ncf nsf feats hf
-  rw [multi_column_eq_single nanv ncf nsf yt yp ms _ hwf hnames m hm,
-    single_eq_model nanv ncf nsf yt yp m _ hwf, byGroup_eq_table nanv ncf nsf hn _ _ hwf, List.map_map]
+  have hna := mkRows_noMissing feats hfna
+  rw [multi_column_eq_single nanv ncf nsf yt yp ms _ hwf hna hnames m hm,
+    single_eq_model nanv ncf nsf yt yp m _ hwf hna, byGroup_eq_table nanv ncf nsf hn _ _ hwf, List.map_map]
   apply List.map_congr_left
   intro k _
   simp only [Function.comp]
@@ -979,6 +1024,7 @@ theorem multi_byGroup_exact (nanv : γ) (ncf nsf : Nat) (hn : 0 < ncf + nsf) (yt
     rows of each control combination -/
 theorem multi_overall_exact (nanv : γ) (ncf nsf : Nat) (yt yp : List Rat)
     (feats : List (List Level × List Level)) (hf : ∀ p ∈ feats, p.1.length = ncf ∧ p.2.length = nsf)
+    (hfna : ∀ p ∈ feats, naLevel ∉ p.1 ∧ naLevel ∉ p.2)
     (hyt : yt.length = feats.length) (hyp : yp.length = feats.length)
     (ms : List (MetricSpec γ)) (hnames : (ms.map (·.name)).Nodup) (m : MetricSpec γ) (hm : m ∈ ms)
     (hpar : ParamsFull feats.length m) :
@@ -992,10 +1038,11 @@ theorem multi_overall_exact (nanv : γ) (ncf nsf : Nat) (yt yp : List Rat)
                     else m.func [sliceAt yt (rowIdxC feats c), sliceAt yp (rowIdxC feats c)]
                            (ownKwargsAt m (rowIdxC feats c))))) := by
   have hwf := mkRows_wf ncf nsf feats hf
-  rw [multi_overall_column_eq_single nanv ncf nsf yt yp ms _ hwf hnames m hm]
+  have hna := mkRows_noMissing feats hfna
+  rw [multi_overall_column_eq_single nanv ncf nsf yt yp ms _ hwf hna hnames m hm]
   unfold singleOverall
   dsimp only
-  rw [FrameSrc.create_overall_eq_model _ _ _ _ _ hwf]
+  rw [FrameSrc.init_overall_eq_model _ _ _ _ _ hwf hna]
   obtain ⟨hr1, g1, g2⟩ := construct_rel yt yp m
   have hfn : metricFn (construct (baseData yt yp) m).1 (construct (baseData yt yp) m).2 =
       fun idx => m.func [idx.map (fun j => yt.getD j 0), idx.map (fun j => yp.getD j 0)] (ownKwargs m idx) := by
@@ -1165,12 +1212,23 @@ def exSpecs : List (MetricSpec (Option Rat)) :=
   [⟨"m0", some "m0", fun _ kw => some (sumKw [] kw), [("w", some [1, 2, 4])]⟩,
    ⟨"m1", some "m1", fun pos kw => some (sumKw [] kw + ((pos.getD 0 []).sum)), [("u", none), ("v", some [10, 20, 40])]⟩]
 
+-- `NoMissing` (the new hypothesis of the `src_*` / `multi_*` theorems) holds of the example rows; a row with a missing
+-- sensitive value is dropped by the lifted groupby (the count of group "a" is 1, not 2) and no group has the missing key
+example : NoMissing exRows := by decide
+example : groupbyApplyNa FrameSrc.groupby_dropna
+    [(⟨1, [], ["a"]⟩ : Row Nat), ⟨2, [], [naLevel]⟩, ⟨3, [], ["b"]⟩] (sfNames 1) List.length = [(["a"], 1), (["b"], 1)] := by
+  decide +kernel
+example : groupbyApplyNa false
+    [(⟨1, [], ["a"]⟩ : Row Nat), ⟨2, [], [naLevel]⟩, ⟨3, [], ["b"]⟩] (sfNames 1) List.length =
+      [([naLevel], 1), (["a"], 1), (["b"], 1)] := by
+  decide +kernel
+
 def exFeats : List (List Level × List Level) := [([], ["a", "x"]), ([], ["b", "y"]), ([], ["a", "x"])]
 
 -- `multi_byGroup_exact` / `multi_overall_exact` / `multi_column_eq_single` / `multi_metric_own_params`: ALL hypotheses
 example : (∀ p ∈ exFeats, p.1.length = 0 ∧ p.2.length = 2) ∧ ([0, 1, 1] : List Rat).length = exFeats.length ∧
     ((exSpecs.map (·.name)).Nodup) ∧ (∀ m ∈ exSpecs, ParamsFull exFeats.length m) ∧
-    WF 0 2 (mkRows exFeats) := by decide +kernel
+    WF 0 2 (mkRows exFeats) ∧ (∀ p ∈ exFeats, naLevel ∉ p.1 ∧ naLevel ∉ p.2) := by decide +kernel
 -- and the interesting branch: each metric sees only its own parameter, sliced by the rows [0, 2] / [1]; NaN elsewhere
 example : FrameMulti.column "m0" (byGroupFrame none 0 2 (baseData [0, 1, 1] [0, 1, 0]) exSpecs (mkRows exFeats)) =
     [(["a", "x"], some (some 5)), (["a", "y"], some none), (["b", "x"], some none), (["b", "y"], some (some 2))] := by
